@@ -29,8 +29,7 @@ ASSUMPTIONS = [
     'DATEDIF M/Y = complete months/years by calendar arithmetic',
 ]
 FLOORS = {'serial_field_calls': 100000, 'date_constructor_calls': 2000,
-          'month_move_calls': 2000, 'pair_calls': 2000,
-          'conversion_calls': 5000, 'time_of_day_calls': 100}
+          'month_move_calls': 2000, 'pair_calls': 2000}
 ANCHOR_FUNCS = {
     'xlcalculator/xlfunctions/date.py': ['DATE', 'YEAR', 'MONTH', 'DAY',
                                          'WEEKDAY', 'ISOWEEKNUM', 'EDATE',
@@ -164,6 +163,11 @@ class Runner:
 
 def run(ctx):
     from xlcalculator.xlfunctions import utils as xu
+    have_conv = hasattr(xu, 'number_to_datetime') and \
+        hasattr(xu, 'datetime_to_number')
+    if not have_conv:
+        ctx.note('conversion sub-check skipped: number_to_datetime / '
+                 'datetime_to_number not present under these names')
     rng = ctx.rng
     R = Runner(ctx)
     thorough = ctx.tier == 'thorough'
@@ -199,6 +203,8 @@ def run(ctx):
             R.check('DATE', (d.year, d.month, d.day), d,
                     'date_constructor_calls', ('DATE-roundtrip', d.month) + bc)
         # conversions: bijection + monotone on whole days
+        if not have_conv:
+            continue
         ctx.event('conversion_calls')
         try:
             dt = xu.number_to_datetime(n)
@@ -220,7 +226,7 @@ def run(ctx):
                      group='conversion:' + bc[1])
 
     # ---- time of day --------------------------------------------------------
-    for _ in range(40 if not thorough else 400):
+    for _ in range((40 if not thorough else 400) if have_conv else 0):
         n = rng.choice([1, 59, 61, 100, 36526, 44000, 45000, MAXSERIAL])
         secs = rng.choice([0, 1, 3600, 43200, 86399, 21600, 64800,
                            rng.randint(0, 86399)])
